@@ -73,7 +73,7 @@ pub fn learn_case_mode(name: &'static str, input: Shape, layers: Vec<L>, nout: u
             let same = |ctx: &mut Ctx, role: &str, x: &V1, y: &V1| {
                 ctx.fact(&format!("{}-count", role), x.len() == y.len(), format!("{} {}", x.len(), y.len()));
                 for i in 0..x.len().min(y.len()) {
-                    ctx.claim(&format!("{}[{}]", role, i), Th::Fp, B::Same(x[i], y[i]));
+                    ctx.claim(&format!("{}[{}]", role, i), Th::Fp, B::Ident(x[i], y[i]));
                 }
             };
             same(ctx, "train-loss", &a.0, &b.0);
@@ -127,7 +127,7 @@ pub fn eval_case(n: usize, what: &'static str) -> Case {
             ctx.schedule("sequential");
             ctx.fact("count", a.len() == b.len(), format!("{} {}", a.len(), b.len()));
             for i in 0..a.len().min(b.len()) {
-                ctx.claim(&format!("{}[{}]", what, i), Th::Fp, B::Same(a[i], b[i]));
+                ctx.claim(&format!("{}[{}]", what, i), Th::Fp, B::Ident(a[i], b[i]));
             }
         }),
     }
@@ -150,7 +150,7 @@ pub fn control_case() -> Case {
             // what a schedule-dependent reduction would compute under the right-to-left tree
             let s2 = v[0] + (v[1] + v[2]);
             ctx.schedule("sequential");
-            ctx.claim("sum", Th::Fp, B::Same(s1, s2));
+            ctx.claim("sum", Th::Fp, B::Ident(s1, s2));
         }),
     }
 }
